@@ -140,7 +140,7 @@ MonStep(mm, e) ==
                                     orig |-> IF Kind(e) \in {"Replay", "Mutate"} /\ In(e).idx \in 1..Len(mm.injs) THEN mm.injs[In(e).idx].orig ELSE Len(mm.injs) + 1])
               ELSE mm.injs
       sent1 == IF Kind(e) \in {"PeerMessage", "PeerHandshake"} /\ ~Unres(e) /\ "plain" \in DOMAIN In(e)
-               THEN mm.sent \cup {<<IF Kind(e) = "PeerHandshake" THEN In(e).claim ELSE Get(In(e), "claim", In(e).party), In(e).party, In(e).plain>>} ELSE mm.sent
+               THEN mm.sent \cup {<<IF Kind(e) = "PeerHandshake" THEN In(e).claim ELSE Get(In(e), "claim", In(e).party), In(e).party, In(e).plain, In(e).from>>} ELSE mm.sent
       proved1 == mm.proved
                  \cup (IF Kind(e) = "AppRequest" THEN {<<In(e).peer, In(e).addr>>} ELSE {})
                  \cup (IF Kind(e) = "PeerHandshake" /\ ~Unres(e) /\ In(e).party = In(e).claim /\ Get(In(e), "sig", "own") = "own" THEN {<<In(e).claim, In(e).from>>} ELSE {})
@@ -199,6 +199,10 @@ MonViol(mm, m2, e) ==
   \* ---------------- C02: what is delivered as coming from P is a plaintext P encrypted
   \cup (IF \E j \in 1..Len(e.out) : e.out[j].e \in {"Request", "Response"} /\ ~\E x \in m2.sent : x[2] = e.out[j].id /\ x[3] = e.out[j].plain
         THEN {"C02.Delivered"} ELSE {})
+  \* ... and it is delivered as coming from the socket its author sent it from (not from where somebody presented it again)
+  \cup (IF \E j \in 1..Len(e.out) : e.out[j].e \in {"Request", "Response"} /\ (\E x \in m2.sent : x[2] = e.out[j].id /\ x[3] = e.out[j].plain)
+                                       /\ ~\E x \in m2.sent : x[2] = e.out[j].id /\ x[3] = e.out[j].plain /\ x[4] = e.out[j].addr
+        THEN {"C02.WrongSource"} ELSE {})
   \cup (IF (Kind(e) = "Mutate" \/ "mut" \in DOMAIN In(e)) /\ ~Unres(e) /\ Get(In(e), "changed", FALSE)
            /\ (Evs(e, "Request") # {} \/ Evs(e, "Response") # {})     \* (a handshake whose message part was tampered with still proves the peer: Established is not a delivery)
         THEN {"C02.MutantAccepted"} ELSE {})
